@@ -815,6 +815,28 @@ fn robustness_job(cx: &Cx, job: &Job, keys_for_count: usize) {
                     }
                 }
             }
+            if len == 1 {
+                // hand-built proofs for n = 2 (no padding node): h' = f*g + c*x^3 for several c, in
+                // particular c = d(d-1), which makes h' vanish at the data node x = -1 (the only
+                // constraint the server imposes on the even-indexed points) while differing from f*g
+                // only in the top coefficient
+                let (f0, g0) = (combined[len], combined[len + 1]);
+                let half = inv(2);
+                let w = root(2);
+                let ev = |h: &[u64; 4], x: u64| h.iter().rev().fold(0u64, |acc, c| am(mm(acc, x), *c));
+                for d in [2u64, 3, 1000, P - 1, P - 2] {
+                    let dm1 = sm(d, 1);
+                    let (a0, a1) = (mm(am(f0, d), half), mm(sm(f0, d), half));
+                    let (b0, b1) = (mm(am(g0, dm1), half), mm(sm(g0, dm1), half));
+                    let fg = [mm(a0, b0), am(mm(a0, b1), mm(a1, b0)), mm(a1, b1), 0];
+                    for (cn, c) in [("d(d-1)", mm(d, dm1)), ("-d(d-1)", sm(0, mm(d, dm1))), ("1", 1), ("d", d)] {
+                        let mut h = fg;
+                        h[3] = c;
+                        let w3 = mm(w, mm(w, w));
+                        targets.push((format!("top_coefficient/d={d},c={cn}"), vec![d, f0, g0, ev(&h, 1), ev(&h, w), ev(&h, w3)]));
+                    }
+                }
+            }
             for (fname, target) in targets {
                 let el2: Vec<u64> = target.iter().zip(hexp.iter()).map(|(t, h)| sm(*t, *h)).collect();
                 let lb2 = bytes_of(&el2);
@@ -1290,6 +1312,33 @@ fn capacity(cx: &Cx, thorough: bool) {
         if let Err(m) = new_vdaf(l) {
             if m.starts_with("PANIC") {
                 cx.c16(&format!("Prio2::new({l})"), &m);
+            }
+        }
+    }
+    // the smallest length that needs a 2^20-point transform (n = 2^19): one honest report end to end
+    {
+        let len = 1usize << 18;
+        run.count("evaluations", 1);
+        match new_vdaf(len) {
+            Err(m) => run.fail("capacity/len=2^18/new", &format!("Prio2::new(2^18) refused: {m}"), json!({"len": len})),
+            Ok(v) => {
+                let meas: Vec<u32> = (0..len).map(|i| ((i * 7 + 1) % 3 == 0) as u32).collect();
+                let tape = &cx.tapes[2];
+                match shard_fixed(&v, &meas, tape.1.array(1100), &tape.1.array(1101)) {
+                    Err(m) => run.fail("capacity/len=2^18/shard", &format!("len=2^18 (needs a 2^20-point transform): sharding an honest 0/1 vector failed: {m}"), json!({"len": len})),
+                    Ok((l, h)) => {
+                        let nonce: [u8; 16] = tape.1.array(1101);
+                        let vk: [u8; 32] = tape.1.array(1102);
+                        match verify_report::<Prio2, 32>(&v, &vk, b"c19", &(), &nonce, &(), &[l, h], &VerifyOpts::wire()) {
+                            Ok((outs, _)) => {
+                                if out_sum(&outs, len) != meas.iter().map(|x| *x as u64).collect::<Vec<_>>() {
+                                    run.fail("capacity/len=2^18/output_sum", "len=2^18: output shares do not sum to the measurement", json!({"len": len}));
+                                }
+                            }
+                            Err(Failure { stage, msg }) => run.fail("capacity/len=2^18/rejected", &format!("len=2^18: honest report not accepted: {} : {msg}", stage_name(&stage)), json!({"len": len})),
+                        }
+                    }
+                }
             }
         }
     }
